@@ -275,7 +275,7 @@ func c09Impl() *dynImpl {
 			ss.SetTrailer(metadata.Pairs("x-c09-t", "t"))
 			var last proto.Message
 			n := 0
-			for ; n < 6; n++ { // bounded
+			for ; ; n++ { // until the request stream ends, as a handler does
 				m := dynamicpb.NewMessage(in)
 				if err := ss.RecvMsg(m); err != nil {
 					if err != io.EOF {
@@ -284,11 +284,16 @@ func c09Impl() *dynImpl {
 					break
 				}
 				last = m
+				if n > 1000000 {
+					// no request carries a million messages: RecvMsg keeps succeeding without a client behind it.
+					// Park instead of spinning; the watchdog reports the request as hung.
+					select {}
+				}
 			}
 			if err := c09Fail(ss.Context()); err != nil {
 				return err
 			}
-			for i := 0; i < 2 && i <= n; i++ {
+			for i := 0; i < 2 && i <= n && n < 7; i++ {
 				if err := ss.SendMsg(c09Reply(last, out)); err != nil {
 					return err
 				}
@@ -318,6 +323,20 @@ func (h *c09Stats) HandleRPC(_ context.Context, s stats.RPCStats) {
 func (h *c09Stats) TagConn(ctx context.Context, _ *stats.ConnTagInfo) context.Context { return ctx }
 func (h *c09Stats) HandleConn(context.Context, stats.ConnStats)                       {}
 
+// a registered codec that is not a StreamCodec (no ReadNext / WriteNext): streaming methods must refuse it, not crash
+type c09PlainCodec struct{}
+
+func (c09PlainCodec) Marshal(v interface{}) ([]byte, error) { return proto.Marshal(v.(proto.Message)) }
+func (c09PlainCodec) MarshalAppend(b []byte, v interface{}) ([]byte, error) {
+	return proto.MarshalOptions{}.MarshalAppend(b, v.(proto.Message))
+}
+func (c09PlainCodec) Unmarshal(data []byte, v interface{}) error {
+	return proto.Unmarshal(data, v.(proto.Message))
+}
+func (c09PlainCodec) Name() string { return "c09plain" }
+
+const c09PlainType = "application/x-c09-plain"
+
 func c09Setup() *c09Env {
 	if c09env != nil {
 		return c09env
@@ -343,6 +362,7 @@ func c09Setup() *c09Env {
 		if cfg&2 != 0 {
 			opts = append(opts, larking.StatsOption(&c09Stats{}))
 		}
+		opts = append(opts, larking.CodecOption(c09PlainType, c09PlainCodec{}))
 		m, err := dynMux(fds, c09Impl(), opts...)
 		if err != nil {
 			panic(fmt.Sprintf("C09 mux does not register: %v", err))
@@ -858,6 +878,11 @@ var c09HTTPBase = []struct{ method, path, query, ct, body string }{
 	{"POST", "/c09/cstream", "", "application/json", `{"name":"a"}{"name":"b"} {"name":"c"}`},
 	{"POST", "/c09/bidi", "", "application/json", `{"name":"a"}{"name":"b"}`},
 	{"POST", "/c09/upload/nn", "", "application/octet-stream", "0123456789abcdef0123456789abcdef"},
+	// a registered codec that cannot stream, on streaming methods
+	{"POST", "/c09/cstream", "", c09PlainType, "\x0a\x01a"},
+	{"POST", "/c09/bidi", "", c09PlainType, "\x0a\x01a"},
+	{"GET", "/c09/sstream/nn", "", c09PlainType, ""},
+	{"POST", "/c09/star", "", c09PlainType, "\x0a\x01a"},
 	{"POST", "/verif.c09.Rsvc/Plain", "", "application/json", "J1"},
 	{"POST", "/verif.c09.Rsvc/PostStar", "", "application/protobuf", "P1"},
 	{"POST", "/larking.testpb.Messaging/GetMessageOne", "", "application/json", `{"name":"x"}`},
